@@ -14,7 +14,7 @@ import (
 	"github.com/yandex/pandora/core/aggregator/netsample"
 )
 
-// kind=seq id=0|1 q=<Q> via=api|raw s=<ns>:<taghex>:<sid>:<f1,…,f10>;<ns>:…
+// kind=seq id=0|1 q=<Q> via=api|raw [buf=<bytes>] s=<ns>:<taghex>:<sid>:<f1,…,f10>;<ns>:…
 // Several different samples, one after the other, through ONE real phout aggregator: the whole result file is
 // compared byte for byte with the model (state that survives from one line to the next — the reused line buffer,
 // the buffered writer — is only visible this way).
@@ -55,6 +55,9 @@ func runSeq(kv map[string]string) string {
 	conf.SampleQueueSize = atoi(kv["q"])
 	if conf.SampleQueueSize < 1 {
 		conf.SampleQueueSize = 1
+	}
+	if kv["buf"] != "" {
+		conf.Buffer = bufConf(atoi(kv["buf"])) // lines longer than the writer's buffer
 	}
 	a, err := netsample.NewPhout(fs, conf)
 	if err != nil {
